@@ -14,6 +14,7 @@ From HW Require Import lib.Base lib.SMap model.Gossip proofs.GossipProofs.
 From HW Require Import model.WireVarint model.WireFrame model.Deser proofs.DeserProofs.
 From HW Require model.FetchSched proofs.FetchSchedProofs.
 From HW Require model.Pktline proofs.PktlineProofs.
+From HW Require gen.ConstsWire model.WireMsg proofs.WireMsgProofs.
 Local Open Scope N_scope.
 
 (* any sequence of events — connections, disconnections, ANY announcements
@@ -59,6 +60,18 @@ Proof. exact FetchSchedProofs.no_panic. Qed.
 Theorem C13_git_header_never_panics :
   forall ext bytes site, Pktline.git_request ext bytes <> Pktline.Panic site.
 Proof. exact PktlineProofs.pktline_no_panic. Qed.
+
+(* gossip message bytes: the decoder model (model/WireMsg.v, property C15) is a
+   total function into explicit error kinds — filter sizes, vector limits, string
+   checks are all tests that yield an error — and whatever it accepts can be
+   re-serialised (Announcement::verify re-encodes every received announcement and
+   unwraps): the re-encoding exists and fits the frame limit *)
+Theorem C13_decoded_message_reencodes_without_panic :
+  forall (utf8_ok alias_ok agent_ok onion_ok : list N -> bool) (bs : list N) (m : WireMsg.message),
+    WireVarint.bytes_ok bs ->
+    WireMsg.decode utf8_ok alias_ok agent_ok onion_ok bs = WireMsg.DecOk m ->
+    exists bs', WireMsg.encode m = Some bs' /\ WireVarint.len bs' <= ConstsWire.SIZE_MAX.
+Proof. exact WireMsgProofs.decoded_reencodes. Qed.
 
 Example C13_example_zero_timestamp_disconnects :
   let c := mkCfg 0 true [] [] [] in
